@@ -363,7 +363,7 @@ impl Prop for C13 {
                 let text = if campaign == "walk-corpus" {
                     ctx.corpus.sv[t.raw() as usize % ctx.corpus.sv.len()].text.clone()
                 } else {
-                    let p = svgen::generate(t, &svgen::Cfg::default());
+                    let p = svgen::generate_mixed(t, &svgen::Cfg::default());
                     let mut f = Feats::default();
                     p.render(t, &TriviaCfg::full(), &mut f)
                 };
